@@ -2,6 +2,7 @@ package sim
 
 import (
 	"fmt"
+	"reflect"
 	"testing"
 	"time"
 
@@ -21,7 +22,7 @@ func steps(c *vlib.Case, p *Profile) int {
 
 func TestC02(t *testing.T) {
 	vlib.SetRule("C02", "TestC02", "generated histories (2-4 nodes, <=60 steps quick / <=150 thorough) of local writes, compactions, leaves, joins, gossip rounds and per-packet deliver/drop/duplicate/reorder/partition steps over real gossip nodes with per-node packet limits down to the minimum viable size; a third of the cases never forget a node; oracle after every step: authenticity against the owner's recorded write history, no loss/rollback up to the reported version, staleness only as permitted by the compaction point, own state untouched by received messages, versions monotone; non-trivial = a truncated delta AND one of relay-only learning, duplicate delivery, reordering, compaction after a delete")
-	p := &Profile{Prop: "C02", Oracles: map[string]bool{"C02": true}, AllowNoSweep: true, TinyPackets: true, LongVals: 5, MaxSteps: maxSteps(60, 150), MaxNodes: maxSteps(4, 6),
+	p := &Profile{Prop: "C02", Oracles: map[string]bool{"C02": true}, AllowNoSweep: true, TinyPackets: true, LongVals: 5, MaxSteps: maxSteps(60, 150), MaxNodes: maxSteps(4, 6), WriteAfterLeave: true,
 		Weights: map[string]int{"compact": 6, "delete": 7}}
 	vlib.RunSync(t, "C02", func(c *vlib.Case) {
 		s := New(c, p)
@@ -39,9 +40,9 @@ func TestC02(t *testing.T) {
 }
 
 func TestC14(t *testing.T) {
-	vlib.SetRule("C14", "TestC14", "same history generator as C02; oracle after every step: the fold of all watcher notifications received by a node (join before keys, upsert/delete edits, leave/unreachable/reachable flags, expired removes) equals its visible view of every remote node; non-trivial = a compaction after a delete occurred and some delta was truncated")
-	p := &Profile{Prop: "C14", Oracles: map[string]bool{"C14": true}, TinyPackets: true, MaxSteps: maxSteps(60, 150), MaxNodes: maxSteps(4, 6),
-		Weights: map[string]int{"compact": 6, "delete": 7}}
+	vlib.SetRule("C14", "TestC14", "same history generator as C02 (a node that has left but is still running keeps writing and deleting keys, as a server whose upstream handlers withdraw their endpoints after the departure was announced); oracle after every step: the fold of all watcher notifications received by a node (join before keys, upsert/delete edits, leave/unreachable/reachable flags, expired removes) equals its visible view of every remote node; non-trivial = a compaction after a delete occurred and some delta was truncated")
+	p := &Profile{Prop: "C14", Oracles: map[string]bool{"C14": true}, TinyPackets: true, MaxSteps: maxSteps(60, 150), MaxNodes: maxSteps(4, 6), WriteAfterLeave: true,
+		Weights: map[string]int{"compact": 6, "delete": 7, "leave": 2}}
 	vlib.RunSync(t, "C14", func(c *vlib.Case) {
 		s := New(c, p)
 		n := steps(c, p)
@@ -532,6 +533,103 @@ func runReturn(t *testing.T, prop string) {
 			}
 			if rn, ok := o.cs.Node(nx.id); !ok || rn.Status != cluster.NodeStatusActive {
 				c.Fatalf("C11: %s returned, but the routing table of %s lists it as %+v (present=%v)", nx.id, o.id, rn, ok)
+			}
+		}
+	})
+}
+
+// TestC17AfterLeave: leave is one of the operations of C17's sequences, and a node
+// that has left keeps its map (a server's upstream handlers withdraw their
+// endpoints after the departure was announced). Observers that synchronise with
+// it afterwards end up with its live state.
+func TestC17AfterLeave(t *testing.T) {
+	vlib.SetRule("C17", "TestC17AfterLeave", "directed: 2-4 real nodes write and synchronise; one owner leaves and tells a drawn subset of the others; it then keeps upserting, deleting, re-creating keys (empty values included) and compacting, while observers synchronise with it again (full exchanges, packet limits as drawn); oracle: after an observer's exchanges with the owner its view of the owner has the owner's version and exactly the owner's entries; non-trivial = the owner changed its state after an observer had applied its leave marker")
+	p := &Profile{Prop: "C17", Oracles: map[string]bool{"C02": true}}
+	vlib.RunSync(t, "C17", func(c *vlib.Case) {
+		N := c.Int("nodes", 2, 4)
+		s := NewN(c, p, N)
+		write := func(n *Node) {
+			s.begin("upsert", n)
+			switch c.Weighted("op", []string{"upsert", "delete", "compact"}, []int{6, 3, 1}) {
+			case "upsert":
+				k, v := s.drawKey(), s.drawVal()
+				c.Stepf("%s: upsert(%q,%q)", n.id, k, v)
+				n.n.State.UpsertLocal(k, v)
+			case "delete":
+				k := s.drawKey()
+				c.Stepf("%s: delete(%q)", n.id, k)
+				n.n.State.DeleteLocal(k)
+			case "compact":
+				th := c.Int("threshold", 1, 3)
+				c.Stepf("%s: compact(%d)", n.id, th)
+				n.n.State.CompactLocal(th)
+			}
+			s.snapshotLocal(n)
+			s.afterAction()
+			s.checkAll()
+		}
+		sync := func(obs, owner *Node) {
+			// enough exchanges for the smallest packet limit to carry everything
+			for i := 0; i < 12; i++ {
+				exchange(s, obs, owner)
+			}
+		}
+		for i, k := 0, c.Int("writesBefore", 1, 10); i < k; i++ {
+			write(s.nodes[c.Pick("writer", N)])
+		}
+		for _, a := range s.nodes {
+			for _, b := range s.nodes {
+				if a != b {
+					sync(a, b)
+				}
+			}
+		}
+		owner := s.nodes[c.Pick("owner", N)]
+		c.Stepf("%s: leave", owner.id)
+		s.begin("leave", owner)
+		owner.n.State.LeaveLocal()
+		owner.left = true
+		s.snapshotLocal(owner)
+		s.afterAction()
+		told := map[*Node]bool{}
+		for _, b := range s.nodes {
+			if b != owner && c.Bool("told") {
+				s.begin("leaveVia", b)
+				s.ctx.sender = owner
+				if err := owner.n.LeaveVia(b.n); err != nil {
+					c.Fatalf("C17: leave stream %s->%s failed: %v", owner.id, b.id, err)
+				}
+				s.afterAction()
+				told[b] = true
+				c.Stepf("%s: leave notification to %s", owner.id, b.id)
+			}
+		}
+		for round, rounds := 0, c.Int("rounds", 1, 3); round < rounds; round++ {
+			changed := false
+			before := owner.n.State.LocalNode().Version
+			for i, k := 0, c.Int("writesAfter", 1, 6); i < k; i++ {
+				write(owner)
+			}
+			if owner.n.State.LocalNode().Version != before {
+				changed = true
+			}
+			for _, obs := range s.nodes {
+				if obs == owner || !c.Chance("synchronises", 2, 3) {
+					continue
+				}
+				if changed && told[obs] {
+					c.NonTrivial()
+				}
+				sync(obs, owner)
+				want := owner.n.State.LocalNode()
+				got, ok := obs.n.State.Node(owner.id)
+				if !ok {
+					c.Fatalf("C17: %s synchronised with %s but does not know it", obs.id, owner.id)
+				}
+				if got.Version != want.Version || !reflect.DeepEqual(entriesMap(got), entriesMap(want)) {
+					c.Fatalf("C17: %s left and changed its state afterwards; %s synchronised with it (12 full exchanges) and holds version %d, %+v - the owner is at version %d, %+v", owner.id, obs.id, got.Version, got.Entries, want.Version, want.Entries)
+				}
+				told[obs] = true
 			}
 		}
 	})
